@@ -6,6 +6,7 @@
   inputs of the PRF), the search completes normally with the empty result.
 -/
 import SSEPyVerif.Proofs.Schemes.ChainCfg
+import SSEPyVerif.Proofs.Schemes.SSE2
 namespace SSEPy.C02
 open SSEPy.Sch SSEPy.Sch.Chain
 
@@ -18,5 +19,34 @@ theorem Chain.search_absent_empty (cfg : ChainCfg) (lv : Leaves) (K : Bytes) (db
     Chain.search cfg lv D (K1, K2) = .ok [] := by
   obtain ⟨L, hL, rfl⟩ := setup_eq cfg lv K db t t' D hs
   exact search_absent cfg lv K1 K2 L l0 h0 (hfresh L hL)
+
+/-- SSE-2: a keyword whose first address `π(w ‖ 1)` is not the address of a stored posting gets the empty result -/
+theorem SSE2.search_absent_empty (cfg : SSE2Cfg) (lv : Leaves) (K1 : Bytes) (db : DB) (I : ITable)
+    (hs : SSE2.setup cfg lv K1 db = .ok I) (hkeys : (db.map (·.1)).Nodup) (hinj : SSE2.AddrInj cfg lv K1 db)
+    (hcap : ∀ I0 cnt, SSE2.encDb cfg lv K1 db [] [] = .ok (I0, cnt) → ∀ p ∈ cnt, p.2 ≤ cfg.max)
+    (w : Bytes) (hfresh : ∀ a, SSE2.addr cfg lv K1 w ((1 + 0 : Nat) : Int) = .ok a → ¬ SSE2.IsStored cfg lv K1 db a)
+    (tk : List Nat) (htk : SSE2.token cfg lv K1 w = .ok tk) : SSE2.search I tk = [] := by
+  unfold SSE2.setup at hs
+  simp only [bind, Except.bind] at hs
+  split at hs
+  · cases hs
+  · rename_i r hr
+    obtain ⟨I0, cnt⟩ := r
+    have hI : I = I0 := by
+      simp only at hs
+      split at hs
+      · rw [SSE2.fillAll_noop cfg lv K1 cnt _ I0 (hcap I0 cnt hr)] at hs; cases hs; rfl
+      · simp only [pure, Except.pure] at hs; cases hs; rfl
+    subst hI
+    obtain ⟨_, l2⟩ := SSE2.encDb_lookup cfg lv K1 db [] [] I cnt hr hkeys hinj
+    obtain ⟨tl, tg⟩ := SSE2.tokenLoop_get cfg lv K1 w cfg.n.toNat 1 tk htk
+    apply SSE2.search_prefix I [] tk (fun i hi => absurd hi (by simp))
+    by_cases hn : cfg.n.toNat = 0
+    · left; rw [tl, hn]; rfl
+    · right
+      obtain ⟨a, ha, hg⟩ := tg 0 (by omega)
+      refine ⟨a, by simpa using hg, ?_⟩
+      rw [l2 a (hfresh a ha)]
+      rfl
 
 end SSEPy.C02
